@@ -14,6 +14,7 @@ def step (line : String) : String :=
   | "c04" :: args => PFile.runC04 args
   | "c06" :: args => PFile.runC06 args
   | "c05h" :: args => Handles.runLine args
+  | "c10" :: args => Ioapi.run args
   | "bin" :: args => Camx.runBin args
   | _ => "err bad-stream"
 
